@@ -16,7 +16,7 @@ type MapCodec struct {
 func (m *MapCodec) Read(r *ReadBuf, p unsafe.Pointer) error {
 	// p is a pointer to a map pointer
 	if *(*unsafe.Pointer)(p) == nil {
-		*(*unsafe.Pointer)(p) = m.New(r)
+		*(*unsafe.Pointer)(p) = reflect.MakeMap(m.rtype).UnsafePointer()
 	}
 	mp := *(*unsafe.Pointer)(p)
 
@@ -100,8 +100,12 @@ func (m *MapCodec) Skip(r *ReadBuf) error {
 	return nil
 }
 
+// New returns a pointer to a (nil) map variable, which is what Read expects to
+// be given. It must not return the map itself: Read would then treat the
+// runtime's map header as the variable and store the real map's address in a
+// word the garbage collector does not scan.
 func (m *MapCodec) New(r *ReadBuf) unsafe.Pointer {
-	return unsafe.Pointer(reflect.MakeMap(m.rtype).Pointer())
+	return r.Alloc(m.rtype)
 }
 
 func (m *MapCodec) Omit(p unsafe.Pointer) bool {
